@@ -7,7 +7,6 @@ import (
 	"fmt"
 	"io"
 	"os"
-	"strconv"
 	"strings"
 	"sync"
 	"time"
@@ -39,13 +38,14 @@ type H struct {
 	o   *hx.Out
 	dir string
 
-	kvf     kv.Factory
-	realWf  wal.Factory
-	wf      *gateFactory
-	sd      server.ShardsDirector
-	rpc     *server.VerifInternalRpc
-	gw      *gateWal
-	streams map[int]*streamH
+	kvf      kv.Factory
+	realWf   wal.Factory
+	wf       *gateFactory
+	sd       server.ShardsDirector
+	rpc      *server.VerifInternalRpc
+	gw       *gateWal
+	streams  map[int]*streamH
+	callPark *callPark
 
 	mu        sync.Mutex
 	acks      []ackRec
@@ -61,6 +61,7 @@ type H struct {
 	fenceOpen     bool  // no action carrying a term >= fencedTerm has been accepted since
 	fenceLen      int   // len(shadow) when NewTerm answered
 	terms         map[int64]*termInfo
+	walBroken     bool
 	reported      map[int64][2]int64 // head reported in the NewTerm response, by term
 	ackedIn       map[int64]int64    // highest offset acknowledged on a stream of the term
 	hasReported   map[int64]bool
@@ -497,6 +498,15 @@ func (h *H) doNewTermRacingWrite(t, p int64) {
 	}
 }
 
+func termSorted(l []ent) bool {
+	for i := 1; i < len(l); i++ {
+		if l[i].term < l[i-1].term {
+			return false
+		}
+	}
+	return true
+}
+
 func entLeq(e ent, t, o int64) bool { return e.term < t || (e.term == t && e.off <= o) }
 
 func (h *H) doTruncate(t, ht, ho int64) {
@@ -539,8 +549,17 @@ func (h *H) doTruncate(t, ht, ho int64) {
 				}
 			}
 		}
+		// "what is kept is exactly what is <= the requested id" presumes a term-sorted log (entry terms non-decreasing
+		// along the log), which every log produced by real leaders is; on an unsorted log (byzantine leader) no verdict
+		sorted := termSorted(shadowBefore)
+		if !sorted {
+			h.o.Count("truncate:unsorted-log(no-verdict)")
+		}
 		regress := false
 		for _, e := range h.shadow {
+			if !sorted {
+				break
+			}
 			if !entLeq(e, ht, ho) {
 				h.violate("truncate:kept-dead-term-entries", fmt.Sprintf("Truncate(term %d, head (%d,%d)) answered OK but the log still holds %v",
 					t, ht, ho, e))
@@ -550,7 +569,7 @@ func (h *H) doTruncate(t, ht, ho int64) {
 		}
 		// residual hole of the one-round truncation (known finding): the request is the one an honest leader sends
 		// for the head this node reported, and still the node keeps entries the leader does not have
-		if ti, rep := h.terms[t], h.reported[t]; ti != nil && !regress && h.hasReported[t] {
+		if ti, rep := h.terms[t], h.reported[t]; ti != nil && !regress && sorted && h.hasReported[t] {
 			var elect []ent
 			for _, e := range ti.log {
 				if e.term < t {
@@ -722,8 +741,35 @@ func (h *H) doCrashRestart(choice int) {
 	}
 	_ = h.sd.Close()
 	raw, err := h.realWf.NewWal(namespace, shardId, nil)
-	hx.Must(err)
+	if err != nil {
+		// the node cannot come back: its WAL does not reopen
+		h.violate("restart:wal-unusable", fmt.Sprintf("after a clean stop the WAL does not reopen: %v (log before the stop %v)", err, h.shadow))
+		h.acts = append(h.acts, "CR:0")
+		h.outs = append(h.outs, "reopen-failed|-|-|N,?")
+		h.walBroken = true
+		h.fatal = "wal does not reopen"
+		return
+	}
 	last, first := raw.LastOffset(), raw.FirstOffset()
+	// the recovered log is the log before the stop, cut at some point at or after the synced prefix
+	recovered := readWal(raw)
+	h.mu.Lock()
+	okPrefix := len(recovered) <= len(h.shadow)
+	for i := 0; okPrefix && i < len(recovered); i++ {
+		okPrefix = recovered[i] == h.shadow[i]
+	}
+	nSynced := 0
+	for _, e := range h.shadow {
+		if e.off <= synced || synced == -2 {
+			nSynced++
+		}
+	}
+	if !okPrefix || len(recovered) < nSynced {
+		h.violate("restart:log-differs-from-synced-prefix", fmt.Sprintf(
+			"log before the stop %v (synced up to offset %d), log after reopening %v", h.shadow, synced, recovered))
+		h.shadow = append([]ent(nil), recovered...)
+	}
+	h.mu.Unlock()
 	if synced == -2 || synced > last {
 		synced = last
 	}
@@ -809,7 +855,7 @@ func (h *H) clientWriteCall(lc server.LeaderController, p int64) int {
 	h.gw.mu.Lock()
 	h.gw.writeSeq = seq
 	h.gw.mu.Unlock()
-	req := &proto.WriteRequest{Shard: pbInt64(shardId), Puts: []*proto.PutRequest{{Key: "k", Value: []byte(strconv.FormatInt(p, 10))}}}
+	req := &proto.WriteRequest{Shard: pbInt64(shardId), Puts: []*proto.PutRequest{{Key: "k", Value: payBytes(p)}}}
 	lc.Write(context.Background(), req, h.writeCallback(seq))
 	return seq
 }
@@ -845,7 +891,7 @@ func (h *H) doWriteRacingNewTerm(p, t int64) {
 	ga, at := g.gateA, g.atGateA
 	g.mu.Unlock()
 	doneW := make(chan struct{})
-	req := &proto.WriteRequest{Shard: pbInt64(shardId), Puts: []*proto.PutRequest{{Key: "k", Value: []byte(strconv.FormatInt(p, 10))}}}
+	req := &proto.WriteRequest{Shard: pbInt64(shardId), Puts: []*proto.PutRequest{{Key: "k", Value: payBytes(p)}}}
 	go func() {
 		lc.Write(context.Background(), req, h.writeCallback(seq))
 		close(doneW)
@@ -900,8 +946,14 @@ func (h *H) doLeaderSync() {
 func (h *H) finalWal() string {
 	h.killStreams(relCancelNoSync)
 	_ = h.sd.Close()
+	if h.walBroken {
+		return "unreadable"
+	}
 	raw, err := h.realWf.NewWal(namespace, shardId, nil)
-	hx.Must(err)
+	if err != nil {
+		h.violate("restart:wal-unusable", fmt.Sprintf("at the end of the schedule the WAL does not reopen: %v", err))
+		return "unreadable"
+	}
 	defer raw.Close()
 	var p []string
 	if raw.FirstOffset() >= 0 {
@@ -909,7 +961,10 @@ func (h *H) finalWal() string {
 		hx.Must(err)
 		for r.HasNext() {
 			e, err := r.ReadNext()
-			hx.Must(err)
+			if err != nil {
+				h.violate("restart:wal-unusable", fmt.Sprintf("at the end of the schedule the WAL cannot be read back: %v", err))
+				break
+			}
 			p = append(p, ent{e.Term, e.Offset, payOf(e.Value)}.String())
 		}
 		_ = r.Close()
